@@ -432,7 +432,9 @@ func runC08(c *ctx) {
 	{
 		r := c.rnd.Derive(811)
 		names := []string{"In/Out", "a/b/c", "/x", "x/y/", "漢/字", "a/b", "/", "p/*q", "plain", "http:/x", "a/-/b"}
-		ends := []string{"\u3000", "\u2003", "\u2009", "\u1680", "\u202f", "\u205f", "\u2028", "\u2029", "\u200b", "\ufeff", "\u00a0", "\u0085", "\v", "\f", "é", "/", "//"}
+		ends := []string{"\u3000", "\u2003", "\u2009", "\u1680", "\u202f", "\u205f", "\u2028", "\u2029", "\u200b", "\ufeff", "\u00a0", "\u0085", "\v", "\f", "é", "/", "//",
+			// letters whose upper-case form has another UTF-8 length (dotless i, long s, turned a, alpha): a comment is not case-mapped, and nothing behind it moves
+			"ölçüm alındı", "ı", "ſ", "ɐ", "ɑɐ ſı"}
 		tails := []string{"", " ", "\t", "  \t ", "\r"}
 		it := &ref.Item{Kind: ref.L, Children: []*ref.Item{{Kind: ref.U1, Slots: []ref.Slot{{Uint: 1}, {Var: "v/w"}}}, {Kind: ref.A, Str: []byte("a//b")}, {Kind: ref.L, Children: []*ref.Item{{Kind: ref.BOOLEAN, Slots: []ref.Slot{{Uint: 1}}}}}}}
 		for ni, name := range names {
